@@ -9,7 +9,9 @@
 //! `MetaMap` diff and reuse atomic delivery for concurrency-safe writes.
 
 use super::dir_sync::{create_local_dirs, transfer_file_from_remote, TransferProgress};
-use super::meta::{discover_local_with_meta, discover_remote_with_meta, set_local_mtime};
+use super::meta::{
+    discover_local_dest, discover_local_with_meta, discover_remote_with_meta, set_local_mtime,
+};
 use super::plan::{build_plan, MetaMap, SyncPlan};
 use super::transfer::{
     collect_dirs, create_remote_dirs, format_bytes, join_handles, transfer_file_to_remote,
@@ -149,7 +151,7 @@ async fn run_remote(
         }
         Dir::Pull => {
             let remote = discover_remote_with_meta(host, remote_root).await?;
-            let local = discover_local_with_meta(local_root).unwrap_or_default();
+            let local = discover_local_dest(local_root)?;
             (remote, local)
         }
     };
@@ -316,7 +318,7 @@ async fn run_local(
         eprintln!("No files found.");
         return Ok(());
     }
-    let dst_meta = discover_local_with_meta(dst).unwrap_or_default();
+    let dst_meta = discover_local_dest(dst)?;
     let plan = build_plan(&src_meta, &dst_meta, &opts.excludes, opts.delete);
     print_plan(&plan, opts.dry_run);
     if opts.dry_run {
